@@ -592,9 +592,14 @@ def independent_of_axioms(formulas):
     return not (acc & _AX_SYMS[0])
 
 
+DEADLINE = [None]      # wall-clock time after which a task's remaining obligations are reported undecided (set per worker)
+
+
 def solve(assumptions, goal, timeout_ms=10000, extra_axioms=(), want_model=True, use_cvc5=True, scale=None):
     """Check validity of (AXIOMS and assumptions) => goal.
     Returns (verdict, model_or_None, info)."""
+    if DEADLINE[0] is not None and time.time() > DEADLINE[0]:
+        return Verdict.UNDECIDED, None, {'backend': 'none', 's': 0.0, 'reason': 'task wall-clock limit reached'}
     if not extra_axioms and independent_of_axioms(list(assumptions) + [goal]):
         def mk0():
             sv = z3.Solver()
@@ -639,7 +644,7 @@ def solve(assumptions, goal, timeout_ms=10000, extra_axioms=(), want_model=True,
     stages = [(False, int(4e6 * f)), (True, int(1.5e7 * f)), (False, int(5e7 * f)), (True, int(5e7 * f))]
     # wall-clock safety net per stage (generous: discharged obligations use a small fraction of their resource
     # limit); without it an exhausted stage can take very long because rlimit units are not proportional to time
-    walls = [int(60000 * f), int(120000 * f), int(240000 * f), int(240000 * f)]
+    walls = [int(30000 * f), int(60000 * f), int(120000 * f), int(120000 * f)]
     total = 0.0
     cand = None
     reason = None
